@@ -294,6 +294,7 @@ func checkMain(args []string) int {
 	}
 	replayStart := time.Now()
 	replayLogs := map[string]string{}
+	crashed := map[string]string{} // replay input name -> fatal runtime error of its own native process
 	for short, ins := range byPkg {
 		res, log, err := nativeReplay(l, short, ins, prop == "C19")
 		replayLogs[short] = log
@@ -301,7 +302,37 @@ func checkMain(args []string) int {
 			outs[k] = v
 		}
 		if len(res) != len(ins) {
-			inconclusive = append(inconclusive, fmt.Sprintf("native replay for package %s incomplete (%d of %d outputs): %v\n%s", short, len(res), len(ins), err, tail(log, 3000)))
+			// the test binary died (a fatal runtime error such as a stack overflow kills the whole
+			// process): run the inputs without an output one by one, each in a process of its own,
+			// so that the crash is attributed to the scenario that causes it
+			missing := []string{}
+			for name := range ins {
+				if res[name] == nil {
+					missing = append(missing, name)
+				}
+			}
+			sort.Strings(missing)
+			still := 0
+			for i, name := range missing {
+				if i >= 60 {
+					still += len(missing) - i
+					break
+				}
+				r1, log1, _ := nativeReplay(l, short, map[string]*ReplayIn{name: ins[name]}, prop == "C19")
+				if r1[name] != nil {
+					outs[name] = r1[name]
+					continue
+				}
+				if strings.Contains(log1, "stack overflow") || strings.Contains(log1, "goroutine stack exceeds") {
+					crashed[name] = "fatal error: stack overflow (" + firstLine(tail(log1, 400)) + ")"
+					continue
+				}
+				still++
+				inconclusive = append(inconclusive, fmt.Sprintf("native replay of %s produced no output: %s", name, tail(log1, 1500)))
+			}
+			if still > 0 {
+				inconclusive = append(inconclusive, fmt.Sprintf("native replay for package %s incomplete (%d inputs without output): %v", short, still, err))
+			}
 		}
 	}
 	replayTime := time.Since(replayStart)
@@ -316,6 +347,20 @@ func checkMain(args []string) int {
 	sampleViol := []map[string]interface{}{}
 	for _, p := range pend {
 		out := outs[p.name]
+		if msg, ok := crashed[p.name]; ok {
+			// the scenario kills the process natively: a violation of "never panics" whichever
+			// role (witness or counterexample) the engine gave these inputs
+			validated++
+			violations++
+			os.MkdirAll(replayDir, 0755)
+			path := filepath.Join(replayDir, p.name+".json")
+			p.in.Expect = &ReplayExpect{Kind: "crash", Msg: msg}
+			b, _ := json.MarshalIndent(p.in, "", " ")
+			os.WriteFile(path, b, 0644)
+			violLines = append(violLines, fmt.Sprintf("VIOLATION property=%s replay=%s", prop, path))
+			fmt.Printf("  detail: harness=%s the native run of this scenario died: %s\n", p.in.Harness, msg)
+			continue
+		}
 		if out == nil {
 			continue
 		}
@@ -403,6 +448,13 @@ func checkMain(args []string) int {
 			}
 		case strings.HasPrefix(v.Kind, "panic"):
 			repro = out.End == "panic"
+		case v.Kind == "recursion":
+			// natively the harness scales the same input up under a small stack limit: the test
+			// binary dies with the runtime's fatal stack overflow (no output file for this input)
+			single, log, _ := nativeReplay(l, p.short, map[string]*ReplayIn{p.name: p.in}, false)
+			if single[p.name] == nil && (strings.Contains(log, "stack overflow") || strings.Contains(log, "goroutine stack exceeds")) {
+				repro = true
+			}
 		case v.Kind == "unwind":
 			repro = false
 		case v.Kind == "global-write" || v.Kind == "pool":
@@ -643,6 +695,10 @@ func replayMain(args []string) int {
 	res, log, err := nativeReplay(l, short, map[string]*ReplayIn{"replay": in}, in.Property == "C19")
 	out := res["replay"]
 	if out == nil {
+		if in.Expect != nil && (in.Expect.Kind == "crash" || in.Expect.Kind == "recursion") && (strings.Contains(log, "stack overflow") || strings.Contains(log, "goroutine stack exceeds")) {
+			fmt.Printf("native run: the process died with a fatal stack overflow\nVIOLATION property=%s replay=%s\n", in.Property, args[0])
+			return 1
+		}
 		fmt.Printf("could not run the replay: %v\n%s\n", err, tail(log, 2000))
 		return 2
 	}
@@ -660,6 +716,11 @@ func replayMain(args []string) int {
 			repro = out.End == "panic"
 		case in.Expect.Kind == "global-write" || in.Expect.Kind == "pool":
 			repro = strings.Contains(log, "DATA RACE") || len(out.Failed) > 0
+			if !repro && in.Twice {
+				for _, f := range out.Failed {
+					repro = repro || f == "shared-state.second_run_differs"
+				}
+			}
 		}
 	}
 	if repro {
